@@ -15,7 +15,7 @@ Extraction "model.ml"
   val wfb identity cert_okb bdd_nodes
   chk_table spec_not spec_and spec_or spec_xor spec_flip spec_swap spec_cof0 spec_cof1 spec_from_cof
   spec_zero spec_one spec_nth_var spec_symmetric spec_equals spec_threshold spec_parity spec_majority spec_set
-  bigN chk_cmp chk_next chk_eq chk_cert chk_minimal chk_below spec_top spec_pos_unate spec_neg_unate decomp_eqb chk_bdd
+  bigN chk_cmp chk_next chk_eq chk_cert chk_minimal chk_below chk_ecube_eq chk_cube_eq spec_top spec_pos_unate spec_neg_unate decomp_eqb chk_bdd
   cube_good sem_or sem_xor sem_soes irredundantb chk_sop_result chk_esop_result chk_esop_from_lut chk_sop_from_lut dom
   (* api *)
   mkLut lut_new table_size num_bits num_blocks
